@@ -154,14 +154,14 @@ func (w *c14World) requestSpelled(kind string, signer chain.Account, prover stri
 		defer func() { w.logf("(the prover was spelled in upper case in that request)") }()
 	}
 	if kind == "attest" {
-		res = w.f.Exec(storagetypes.NewMsgRequestAttestationForm(spCreator, f.Merkle, f.Owner, f.Start))
+		res = w.f.Exec(newMsgRequestAttestationForm(spCreator, f.Merkle, f.Owner, f.Start))
 		if res.OK() {
 			var r storagetypes.MsgRequestAttestationFormResponse
 			must(res.Decode(&r))
 			success, emsg = r.Success, r.Error
 		}
 	} else {
-		res = w.f.Exec(storagetypes.NewMsgRequestReportForm(signer.Bech, spProver, f.Merkle, f.Owner, f.Start))
+		res = w.f.Exec(newMsgRequestReportForm(signer.Bech, spProver, f.Merkle, f.Owner, f.Start))
 		if res.OK() {
 			var r storagetypes.MsgRequestReportFormResponse
 			must(res.Decode(&r))
@@ -268,9 +268,9 @@ func (w *c14World) signSpelled(kind string, signer chain.Account, prover string,
 	formBefore := w.formSig(kind, prover, f)
 	var res chain.Result
 	if kind == "attest" {
-		res = w.f.Exec(storagetypes.NewMsgAttest(spSigner, spProver, f.Merkle, f.Owner, f.Start))
+		res = w.f.Exec(newMsgAttest(spSigner, spProver, f.Merkle, f.Owner, f.Start))
 	} else {
-		res = w.f.Exec(storagetypes.NewMsgReport(spSigner, spProver, f.Merkle, f.Owner, f.Start))
+		res = w.f.Exec(newMsgReport(spSigner, spProver, f.Merkle, f.Owner, f.Start))
 	}
 	if upProver || upSigner {
 		w.sawSpelled = true
@@ -514,7 +514,7 @@ func TestC14(t *testing.T) {
 					rt.Skip() // the provers under discussion stay registered (forms about them need their record)
 				}
 				before := w.snap()
-				r := w.f.Exec(storagetypes.NewMsgShutdownProvider(p.Bech))
+				r := w.f.Exec(newMsgShutdownProvider(p.Bech))
 				w.logf("provider %s shuts down -> %s", short(p.Bech), r)
 				fail(w.noEffect(before, "a provider shutdown"))
 			},
